@@ -351,3 +351,80 @@ def run_ri_bare(case, name):
                                + (f"; VIOLATED e.g. previous {bad[0][0]} -> new {bad[0][1]}: stale {bad[0][2]}" if bad else ""),
                           replay=dict(kind="ddp_native", cls=name), model=dict(first_bad=str(bad[:1]))))
     return out
+
+
+# ---------------------------------------------------------------------------------------------------------
+# communication dtype of the gather buffers: the documented mapping, independent of the parameters' dtypes
+
+
+def run_comm_dtype(case):
+    """case = commdtype/<ddp|hsdp|hybrid>.  The REAL optimizer constructor with the real distributor on a single-process gloo group of world
+    size 1 (HashStore, no network), for a MIXED-dtype parameter group (bfloat16 first, then float32): the gather-buffer views have the dtype
+    the configuration names — DEFAULT and FP32 -> float32 (so float32 parameters equal the serial optimizer exactly), FP16 -> float16,
+    BF16 -> bfloat16 — and never a dtype derived from the parameters."""
+    import torch
+    import torch.distributed as dist
+    from distributed_shampoo import shampoo_types as st
+    from distributed_shampoo.distributed_shampoo import DistributedShampoo
+    from vlib.driver import result
+    name = case.split("/")[1]
+    func = dict(ddp="DDPDistributor.__init__", hsdp="HSDPDistributor.__init__", hybrid="HybridShardDistributor.__init__")[name]
+    out = []
+    try:
+        if not dist.is_initialized():
+            dist.init_process_group("gloo", store=dist.HashStore(), rank=0, world_size=1)
+        mesh = None
+        if name != "ddp":
+            from torch.distributed.device_mesh import init_device_mesh
+            mesh = init_device_mesh("cpu", (1, 1), mesh_dim_names=("replicate", "shard"))
+    except BaseException as e:  # noqa
+        return [result(f"{func}/communication-dtype-mapping[{case}]", func, "unknown", case=case, text=f"no single-process group available: {e!r}"[:300])]
+    want = {st.CommunicationDType.DEFAULT: torch.float32, st.CommunicationDType.FP32: torch.float32, st.CommunicationDType.FP16: torch.float16,
+            st.CommunicationDType.BF16: torch.bfloat16}
+    for order in (("bf16", "f32", "f32"), ("f32", "bf16", "f16"), ("f16", "f32")):
+        for cdt in st.CommunicationDType:
+            dts = [dict(bf16=torch.bfloat16, f32=torch.float32, f16=torch.float16)[d] for d in order]
+            ps = [torch.nn.Parameter(torch.randn(4, 3).to(dt)) for dt in dts]
+            try:
+                if name == "ddp":
+                    cfg = st.DDPShampooConfig(communication_dtype=cdt)
+                elif name == "hsdp":
+                    from torch.distributed.fsdp import ShardingStrategy
+                    ps = [torch.nn.Parameter(p.detach().reshape(-1)) for p in ps]
+                    meta = {f: st.FSDPParameterMetadata(fqn=f"p{j}", shape=torch.Size((4, 3)), numel=12, start_idx=0, end_idx=12, sharding_strategy=ShardingStrategy.HYBRID_SHARD)
+                            for j, f in enumerate(ps)}
+                    cfg = st.HSDPShampooConfig(param_to_metadata=meta, device_mesh=mesh, communication_dtype=cdt)
+                else:
+                    from torch.distributed.tensor import Replicate, Shard, distribute_tensor
+                    ps = [torch.nn.Parameter(distribute_tensor(p.detach(), mesh, [Replicate(), Shard(0)])) for p in ps]
+                    cfg = st.HybridShardShampooConfig(device_mesh=mesh, communication_dtype=cdt)
+                opt = DistributedShampoo(ps, lr=0.01, max_preconditioner_dim=8, distributed_config=cfg, preconditioner_dtype=torch.float64)
+                got = {b.dtype for b in opt._per_group_state_lists[0][st.DISTRIBUTOR]._global_dist_blocked_buffers}
+                ok, why = got == {want[cdt]}, f"gather-buffer dtypes {sorted(map(str, got))}"
+                # state allocated through the distributor's allocation function keeps the requested dtype (factor matrices: preconditioner_dtype)
+                fdt = set()
+
+                def walk(x, depth=0):
+                    if depth > 6:
+                        return
+                    if hasattr(x, "factor_matrices"):
+                        fdt.update(t.dtype for t in x.factor_matrices)
+                    elif isinstance(x, dict):
+                        for v in x.values():
+                            walk(v, depth + 1)
+
+                walk(dict(opt.state))
+                if ok and fdt != {torch.float64}:
+                    ok, why = False, f"factor matrices allocated with dtypes {sorted(map(str, fdt))} although preconditioner_dtype=float64"
+            except BaseException as e:  # noqa
+                ok, why = False, f"raised {type(e).__name__}: {e}"[:200]
+            out.append(result(f"{func}/communication-dtype-mapping[{case}/{'-'.join(order)}/{cdt.name}]", func, "discharged" if ok else "violated",
+                              backend="concrete-execution of the real constructor (single-process gloo group, world size 1)", case=case,
+                              text=f"parameters {order}, communication_dtype={cdt.name}: every gather-buffer view is {want[cdt]} (DEFAULT = FP32 = float32, whatever the parameters' dtypes); state allocated by the distributor has the requested dtype — {why}",
+                              replay=dict(kind="commdtype", copy=name)))
+    return out
+
+
+def native_comm_dtype(name):
+    bad = [r for r in run_comm_dtype(f"commdtype/{name}") if r["status"] == "violated"]
+    return (bad[0]["text"] if bad else None)
